@@ -544,6 +544,7 @@ static void czt_case(int id, uint64_t seed, int maxn, bool corr, Res& R) {
         const double ratio = wn == 0 ? (err == 0 ? 0 : 1e30) : double(err / bound);
         auto& wst = R.worst["czt"];
         if (ratio > wst) wst = ratio;
+        if (ratio > 0.3 && std::getenv("VERIF_DEBUG")) std::fprintf(stderr, "ratio %.3f czt %s\n", ratio, js.substr(0, 200).c_str());
         if (!(ratio <= 1)) R.fails.push_back({"C01:czt-accuracy", js.substr(0, js.size() - 1) + ",\"err\":" + vh::jnum(double(err)) + ",\"bound\":" + vh::jnum(double(bound)) + "}"});
         // for information only: error relative to the plain (unweighted) transform norm
     }
@@ -606,7 +607,8 @@ int main(int argc, char** argv) {
 
     // 1. every length 1..N with all bins
     const int N = a.thorough ? 4096 : 512;
-    {
+    const char* only = std::getenv("VERIF_PHASE");   // development aid: run a single phase
+    if (!only || only[0] == '1') {
         vh::set_current("C01:crash-or-hang", "{\"phase\":\"sweep of every length 1..N\",\"seed\":" + std::to_string(seed) + "}");
         vh::watch(a.thorough ? 3000 : 600);
         std::vector<int> order(N);
@@ -620,7 +622,7 @@ int main(int argc, char** argv) {
         vh::clear_current();
     }
     // 2. structured sample of larger lengths (up to 2^17)
-    {
+    if (!only || only[0] == '2') {
         std::vector<int> lens = big_lengths(rng, a.thorough ? 24 : 3, a.thorough ? 4097 : 513, 131072);
         if (!a.thorough) { auto more = big_lengths(rng, 2, 513, 4096); lens.insert(lens.end(), more.begin(), more.end()); }
         vh::set_current("C01:crash-or-hang", "{\"phase\":\"sampled large lengths\",\"seed\":" + std::to_string(seed) + ",\"lengths\":" + vh::jints(lens) + "}");
@@ -638,7 +640,7 @@ int main(int argc, char** argv) {
         vh::clear_current();
     }
     // 3. fft(x, n') for all n' in 1..2n
-    {
+    if (!only || only[0] == '3') {
         const int NP = a.thorough ? 64 : 24;
         vh::set_current("C01:crash-or-hang", "{\"phase\":\"fft(x, n_out)\",\"seed\":" + std::to_string(seed) + "}");
         vh::watch(600);
@@ -647,7 +649,7 @@ int main(int argc, char** argv) {
         vh::clear_current();
     }
     // 4. czt
-    {
+    if (!only || only[0] == '4') {
         const int NC = a.thorough ? 6000 : 600;
         vh::set_current("C01:crash-or-hang", "{\"phase\":\"czt\",\"seed\":" + std::to_string(seed) + "}");
         vh::watch(1200);
